@@ -25,6 +25,9 @@ LSVecs ==
   \* an independent revocation key in the signing_key field (the usual case on the network)
   \o Cross2(<< << 0, 0, 40 >>, << 7, 4, 64 >>, << 7, 0, 64 >>, << 11, 4, 64 >> >>, << 1, 3 >>, LAMBDA t, n :
          SB("NewLeaseSet", t[1], [ct |-> t[2], nleases |-> n, otherrevkey |-> TRUE], t[3], << >>, 395 + t[1] + n))
+  \* lease end dates descending (1) and unordered with a repeat (2): the order given is the order signed, and no query may change it
+  \o Cross2(<< << 0, 0, 40 >>, << 7, 4, 64 >> >>, << 1, 2 >>, LAMBDA t, o :
+         SB("NewLeaseSet", t[1], [ct |-> t[2], nleases |-> 3 + o, lorder |-> o], t[3], << >>, 440 + t[1] + o))
 OffVecs ==
   Cross3(<< 7, 11, 8 >>, << 7, 11, 8, 0, 1 >>, << << 0, 0, 0, 1 >>, T4, << 255, 255, 255, 255 >> >>, LAMBDA dst, tst, ex :
      SB("CreateOfflineSignature", dst, [tst |-> tst, expires |-> ex], 64, << >>, 400 + dst * 10 + tst))
@@ -59,7 +62,7 @@ ELSDefectVecs ==
   \o SeqMap(LAMBDA n : SB("NewEncryptedLeaseSet", 11, ELSM(FALSE, 7, 0, n, 600, 0), 64, << 5 >>, 690 + n), << 0, 1, 60 >>)
   \o SeqMap(LAMBDA d : SB("NewEncryptedLeaseSet", 11, ELSM(FALSE, 7, 0, 100, 600, d), 64, << 5 >>, 695), << -1, 1 >>)
 LS2Vecs ==
-  [k \in 1..Len(MapSets) |-> SB("NewLeaseSet2", 7, [ct |-> 4, pairs |-> MapSets[k], off |-> FALSE, tst |-> 7, flags |-> 0, nkeys |-> 1, nleases |-> (k % 3) + 1, published |-> T4, expires |-> 600, offexpires |-> T4], 64, << 3 >>, 700 + k)]
+  [k \in 1..Len(MapSets) |-> SB("NewLeaseSet2", 7, [ct |-> 4, pairs |-> MapSets[k], off |-> FALSE, tst |-> 7, flags |-> 0, nkeys |-> 1, nleases |-> (k % 3) + 2, lorder |-> k % 3, published |-> T4, expires |-> 600, offexpires |-> T4], 64, << 3 >>, 700 + k)]
   \o Cross2(<< 7, 11 >>, << 7, 11 >>, LAMBDA st, tst : SB("NewLeaseSet2", st, [ct |-> 4, pairs |-> MapSets[3], off |-> TRUE, tst |-> tst, flags |-> 1, nkeys |-> 2, nleases |-> 2, published |-> T4, expires |-> 600, offexpires |-> << 101, 36, 250, 0 >>], 64, << 3 >>, 800 + st + tst))
   \* "any encryption keys": legacy 256-byte key entries whose bytes are 0, 1, all ones, random
   \o SeqMap(LAMBDA k : SB("NewLeaseSet2", 7, [ct |-> 4, pairs |-> MapSets[3], off |-> FALSE, tst |-> 7, flags |-> 0, nkeys |-> 1, nleases |-> 1, published |-> T4, expires |-> 600,
